@@ -10,6 +10,7 @@ Shares of a servermap: <shnum>:<server>:<seq>:<root>:<pre>:<offs>:<g|b> (sorted 
 `vm <k> share…` → `<best verinfo | ->  | <recoverable verinfos, sorted>` (ServerMap.best_recoverable_version);
 `rl <t|f> <k> share…` → `ok:<shnums used>` | `fail` (the Retrieve loop; t = a bad share drops its server, as the code did before /repo 280b4a6);
 `rd <t|f> <k> share… / share…` → `<verinfo>` | `fail` (download_best_version: first survey / complete map).
+`ds <c|f>:<verified salt>:<fetched salt>…` → the salt the segment is decrypted with (readers in activation order; c = cached reader) | `-`;
 `ot <c|i> <field>:<offset>…` → the offsets tuple inside verinfo (c = canonical/sorted, i = insertion order). -/
 open Tahoe.Drv Tahoe.Authentic
 
@@ -66,6 +67,18 @@ def handle : List String → String
       | .ok used => s!"ok:{if used.isEmpty then "-" else showNatList used}"
       | .fail => "fail"
     | _, _, _ => "bad-op"
+  | "ds" :: readers =>
+    let parse (t : String) : Option (ReaderHdr Nat) := match t.splitOn ":" with
+      | [c, v, f] => do
+        let cached ← (if c == "c" then some true else if c == "f" then some false else none)
+        let mk (salt : Nat) : Prefix Nat := { seqnum := 1, root := 0, salt := salt, k := 1, n := 1, segsize := 1, datalen := 1 }
+        pure ⟨cached, mk (← v.toNat?), mk (← f.toNat?)⟩
+      | _ => none
+    match readers.mapM parse with
+    | some rs => match decryptSalt rs with
+      | some salt => toString salt
+      | none => "-"
+    | none => "bad-op"
   | "ot" :: c :: entries =>
     let parse (t : String) : Option (Nat × Nat) := match t.splitOn ":" with
       | [a, b] => do pure (← a.toNat?, ← b.toNat?)
